@@ -90,7 +90,16 @@ def gen_script(rng, sid):
                     body = ('and', ('cut',), ('call', C(rng.choice(later), X)))
                     has_cut = True
             clauses.append((head, body))
-    # group clauses of one predicate together is not required: the compiler groups by name/arity
+    if rng.random() < 0.3:
+        # structural recursion (last goal calls the clause's own predicate): its base case is defined elsewhere -
+        # by a dynamic fact, by another load or by a registered function - and every level must go through the
+        # normal call resolution
+        X = V('X')
+        clauses.append((C('r', C('s', X)), ('call', C('r', X))))
+        if rng.random() < 0.3:
+            clauses.append((C('r', A('z')), ('true',)))
+        if rng.random() < 0.3:
+            clauses.append((C('r2', C('s', X), V('Y')), ('and', ('call', C('b', V('Y'))), ('call', C('r2', X, V('Y'))))))
     return clauses, has_cut
 
 
@@ -134,6 +143,16 @@ def gen_history(rng):
                 rows = [tuple(A('py%d_%d' % (sid, i)) for _ in range(ar)) for i in range(rng.choice([1, 2]))]
                 hist.append(('register', name, ar, rows, style))
             c['registers'] = c.get('registers', 0) + 1
+        elif r < 0.66:
+            # base cases of the recursive predicates, supplied from outside the script
+            k = rng.random()
+            if k < 0.5:
+                hist.append(('assert_fact', rng.choice([C('r', A('z')), C('r', C('s', A('z'))), C('r2', A('z'), A('base'))]), True))
+            elif k < 0.8:
+                hist.append(('register', 'r', 1, [(A('z'),)], rng.choice(['inferred', 'explicit'])))
+            else:
+                hist.append(('load', [(C('r', A('z')), ('true',))], False))
+            c['recursion_base_elsewhere'] = c.get('recursion_base_elsewhere', 0) + 1
         elif r < 0.8:
             name = rng.choice(NAMES)
             ar = rng.choice([0, 1, 1, 2])
@@ -151,6 +170,8 @@ def gen_history(rng):
             hist.append(('clear',))
             c['clears'] = c.get('clears', 0) + 1
         hist.append(('dump', PROBES))
+        hist.append(('run', 'r', [C('s', C('s', C('s', A('z'))))], 3))
+        hist.append(('run', 'r2', [C('s', C('s', A('z'))), V('P%d' % sid)], 6))
         c['probe_sets_compared'] = c.get('probe_sets_compared', 0) + 1
     for q in open_q:
         for _ in range(6):
